@@ -58,4 +58,11 @@ def step (args : List String) : String :=
           Paloma.Sha256.toHex (Paloma.Sha256.sha256 (pre.map UInt8.ofNat))
   | _ => "bad-op"
 
+/-- keeper-level consistency ops: the model's prediction is that every attestation key is the hash of
+    its own stored claim and votes are pooled only for identical claims (Props/C11.lean). -/
+def stepKeeper (args : List String) : String :=
+  match args with
+  | ["nonce", _, _] => "consistent"
+  | _ => "bad-op"
+
 end Driver.C11
